@@ -27,7 +27,7 @@ RULE = (
     "maps, estimator maps, transform kinds, step kind, request-kind sequence, fault plan)."
 )
 ASSUMPTIONS = [
-    "weights of filtered functions are taken from the reported filter row (their correctness is C04/C05)",
+    "the reported weight row of a filtered function must equal the reference weights of the filter mapped to it (when the ranking is free of ties); the value is then recomputed from that row",
     "value comparison rtol 1e-9 / atol 1e-12; twin-run comparison rtol 1e-12",
     "SimEvaluator and the scripted optimizer are stubs playing the user and the algorithm; all of ropt is real",
 ]
@@ -37,7 +37,7 @@ COMPONENTS = {
     "stub": ["SimEvaluator (user evaluator)", "sim/scripted optimizer (algorithm)", "sim/inject sampler",
              "objective/constraint scalers (user supplied)"],
 }
-PROBES = ["compared_values", "filtered_function", "unfiltered_next_to_filtered", "stddev_compared",
+PROBES = ["filter_row_compared", "compared_values", "filtered_function", "unfiltered_next_to_filtered", "stddev_compared",
           "batch_request", "nan_rows_seen", "zero_weight_realization", "twin_compared", "weighted_compared"]
 
 
@@ -120,6 +120,7 @@ def execute(scn: dict) -> dict:
         probes[name] = probes.get(name, 0) + n
 
     compared = 0
+    filter_ref: dict = {}
     for ln in oracles.linked_results(ctx):
         if not ln.is_function:
             continue
@@ -152,6 +153,21 @@ def execute(scn: dict) -> dict:
                     continue
                 if filtered:
                     probe("filtered_function")
+                    # the weights in force must be the ones produced by the filter mapped to this function
+                    fi = model.filter_of(cfg, kind, j)
+                    key = (ln.call.k, ln.pos, fi)
+                    if key not in filter_ref:
+                        filter_ref[key] = oracles.ref_filter_weights(cfg, cfg["realization_filters"][fi], yo, yc, failed,
+                                                                     model.realization_weights(cfg), tm)
+                    fw, ties = filter_ref[key]
+                    if fw is not None and not ties:
+                        probe("filter_row_compared")
+                        if not np.allclose(w, fw, rtol=0, atol=1e-12):
+                            viol.append({
+                                "clause": "weights-in-force-not-from-mapped-filter", "sig": {"filters": len(cfg["realization_filters"])},
+                                "detail": f"{'objective' if kind == 'o' else 'constraint'} {j} at eval {ln.call.k} is mapped to filter {fi} "
+                                          f"({cfg['realization_filters'][fi]['method']}): weights in force {np.asarray(w).tolist()}, that filter's weights {fw.tolist()}"})
+                            continue
                 elif anyf:
                     probe("unfiltered_next_to_filtered")
                 w = np.where(failed, 0.0, w)
